@@ -17,7 +17,7 @@ def filterStep (f : Filt) (toks : List String) : Option (Filt × String) :=
   | ["reset", me, inst] => do
       let me ← natOf me; let inst ← natOf inst
       pure ({ me := me, inst := inst }, "reset")
-  | ["recv", uid, h, inst, sender, script] => do
+  | ["recv", uid, h, inst, sender, script, _viewBump] => do   -- a view change inside a delivery does not concern the filter
       let m : FMsg := ⟨← natOf uid, ← natOf h, ← natOf inst, ← natOf sender, ← natOf script⟩
       let n := f.log.length
       let f' := recv 1000000 f m
